@@ -160,7 +160,7 @@ class Gen:
             ops.append(op)
         return ops, m
 
-    def gen_op(self, m, side, owned=None, allow=None, renamed_names=None, deleted_names=None, fresh_top_owner=None):
+    def gen_op(self, m, side, owned=None, allow=None, renamed_names=None, deleted_names=None, reuse=None):
         """One valid user op for `side` on model m.  owned: predicate(path)->bool restricting the touched objects.
         Target names of create/mkdir/rename are fresh (so HF/HD are false by construction, rendir isolated by caller)."""
         rng = self.rng
@@ -168,17 +168,24 @@ class Gen:
         files = [f for f in m.files() if owned(f)]
         dirs = [d for d in m.dirs() if owned(d)]
         norename = getattr(self, "_norename", set())
+        if side in getattr(self, "_pathid_sides", ()):
+            # path-id side: an object already created/written/renamed in this window is not renamed or deleted (HC, K15)
+            norename = norename | getattr(self, "_chain", set())
         renamable = [f for f in files if f not in norename]
+        chain = getattr(self, "_chain", set()) if side in getattr(self, "_pathid_sides", ()) else set()
+        deletable = [f for f in files if f not in chain]
         parents = [""] + [d for d in dirs if d.count("/") < 3]
         kinds = []
         w = allow or {"create": 4, "write": 3, "rename": 3, "delete": 2, "mkdir": 2, "rmdir": 1, "rendir": 1,
                       "recreate": 0.5}
         kinds += ["create"] * int(w.get("create", 0) * 2) + ["mkdir"] * int(w.get("mkdir", 0) * 2)
         if files:
-            kinds += ["write"] * int(w.get("write", 0) * 2) + ["delete"] * int(w.get("delete", 0) * 2)
+            kinds += ["write"] * int(w.get("write", 0) * 2)
+        if deletable:
+            kinds += ["delete"] * int(w.get("delete", 0) * 2)
         if renamable:
             kinds += ["rename"] * int(w.get("rename", 0) * 2)
-        empties = [d for d in dirs if not m.kids(d)]
+        empties = [d for d in dirs if not m.kids(d) and d not in chain]
         if empties:
             kinds += ["rmdir"] * int(w.get("rmdir", 0) * 2)
         if dirs:
@@ -205,7 +212,7 @@ class Gen:
         elif kind == "write":
             op = {"side": side, "op": "write", "path": rng.choice(files), "data": self.contents.fresh(side)}
         elif kind == "delete":
-            op = {"side": side, "op": "delete", "path": rng.choice(files)}
+            op = {"side": side, "op": "delete", "path": rng.choice(deletable)}
         elif kind == "rmdir":
             op = {"side": side, "op": "rmdir", "path": rng.choice(empties)}
         elif kind == "rename":
@@ -215,13 +222,30 @@ class Gen:
             else:
                 par = rng.choice(parents)
             name = self.names.fresh(pfx)
-            op = {"side": side, "op": "rename", "path": src, "to": (par + "/" + name) if par else name}
+            to = (par + "/" + name) if par else name
+            if reuse:
+                cands = [q for q in reuse if q not in m.t and m.parent_ok(q) and owned(q)]
+                if cands and rng.random() < 0.6:
+                    to = rng.choice(cands)
+            op = {"side": side, "op": "rename", "path": src, "to": to}
         else:   # rendir
             src = rng.choice(dirs)
             pars = [p for p in parents if not (p + "/").startswith(src + "/")]
             par = m.parent(src) if rng.random() < 0.6 else rng.choice(pars)
             name = self.names.fresh(pfx)
-            op = {"side": side, "op": "rendir", "path": src, "to": (par + "/" + name) if par else name}
+            to = (par + "/" + name) if par else name
+            if reuse:
+                cands = [q for q in reuse if q not in m.t and m.parent_ok(q) and owned(q)
+                         and not (q + "/").startswith(src + "/")]
+                if cands and rng.random() < 0.5:
+                    to = rng.choice(cands)
+            op = {"side": side, "op": "rendir", "path": src, "to": to}
+        if not hasattr(self, "_chain"):
+            self._chain = set()
+        if op["op"] in ("create", "write", "mkdir"):
+            self._chain.add(op["path"])         # touched in this window: not renamed/deleted before the next quiescent point
+        elif op["op"] == "rename":
+            self._chain.add(op["to"])
         # object identity for the hazard predicates
         if op["op"] in ("create", "mkdir"):
             ok = m.apply(op)
@@ -233,6 +257,8 @@ class Gen:
                 deleted_names.add(op["path"])
             ok = m.apply(op)
             assert ok, op
+            if reuse is not None and op["op"] in ("delete", "rmdir", "rename", "rendir"):
+                reuse.add(op["path"])
             if renamed_names is not None and "to" in op:
                 renamed_names.add(op["path"])
                 renamed_names.add(op["to"])
@@ -255,56 +281,74 @@ class Gen:
         return [[rng.choice(STEPS)] for _ in range(rng.randrange(0, 5))]
 
     # -- families --------------------------------------------------------------------------------------------
-    def case_one(self, flavour, shape, side, nops, base_side=None, base_n=None, weights=None):
+    def case_one(self, flavour, shape, side, nops, base_side=None, base_n=None, weights=None, seek=False):
         """ONE(side): every user op on one side; from a previously synchronised base tree."""
         rng = self.rng
         base_side = side if base_side is None else base_side
         base, m = self.base_tree(base_side, base_n)
         self._norename = set()
+        self._chain = set()
+        self._pathid_sides = set() if seek else {i for i in (0, 1) if flavour[i] == "p"}
         sched = []
         renamed, deleted = set(), set()
+        reuse = set() if seek else None
+        if seek:
+            weights = {"create": 3, "write": 2, "rename": 4, "delete": 2, "mkdir": 3, "rmdir": 1, "rendir": 4, "recreate": 2}
         for _ in range(nops):
-            op = self.gen_op(m, side, None, weights, renamed, deleted)
-            if op["op"] == "rendir":
+            op = self.gen_op(m, side, None, weights, None if seek else renamed, deleted, reuse)
+            if op["op"] == "rendir" and not seek:
                 sched.append(["Q"])
                 sched.append(["U", op])
                 sched.append(["Q"])
+                self._chain = set()
             else:
                 sched.append(["U", op])
-                sched.extend(self.gap(shape))
-        return {"family": "ONE%d" % side, "flavour": flavour, "shape": shape, "base": base, "base_side": base_side,
-                "sched": sched, "expect": m.t}
+                gap = self.gap(shape)
+                sched.extend(gap)
+                if ["Q"] in gap:
+                    self._chain = set()
+        return {"family": ("SONE%d" if seek else "ONE%d") % side, "flavour": flavour, "shape": shape, "base": base,
+                "base_side": base_side, "sched": sched, "expect": m.t}
 
-    def case_disj(self, flavour, shape, nops, weights=None):
+    def case_disj(self, flavour, shape, nops, weights=None, seek=False):
         """DISJ: both sides change, but each side only touches objects it owns (ownership by top-level entry)."""
         rng = self.rng
         base_side = rng.randrange(2)
         base, m = self.base_tree(base_side, rng.choice((4, 6, 8, 10)))
         self._norename = set()
+        self._chain = set()
+        self._pathid_sides = set() if seek else {i for i in (0, 1) if flavour[i] == "p"}
         owner = {}
         for p in m.t:
             owner.setdefault(top(p), rng.randrange(2))
         sched = []
         renamed, deleted = set(), set()
+        reuse = set() if seek else None
+        if seek:
+            weights = {"create": 3, "write": 2, "rename": 4, "delete": 2, "mkdir": 3, "rmdir": 1, "rendir": 4}
         for _ in range(nops):
             side = rng.randrange(2)
 
             def owned(p, side=side):
                 return owner.get(top(p), side) == side
-            op = self.gen_op(m, side, owned, weights, renamed, None)
+            op = self.gen_op(m, side, owned, weights, None if seek else renamed, None, reuse)
             owner.setdefault(top(op["path"]), side)
             if "to" in op:
                 # moving to the top level creates a new top-level name owned by the mover
                 owner.setdefault(top(op["to"]), side)
-            if op["op"] == "rendir":
+            if op["op"] == "rendir" and not seek:
                 sched.append(["Q"])
                 sched.append(["U", op])
                 sched.append(["Q"])
+                self._chain = set()
             else:
                 sched.append(["U", op])
-                sched.extend(self.gap(shape))
-        return {"family": "DISJ", "flavour": flavour, "shape": shape, "base": base, "base_side": base_side,
-                "sched": sched, "expect": m.t}
+                gap = self.gap(shape)
+                sched.extend(gap)
+                if ["Q"] in gap:
+                    self._chain = set()
+        return {"family": "SDISJ" if seek else "DISJ", "flavour": flavour, "shape": shape, "base": base,
+                "base_side": base_side, "sched": sched, "expect": m.t}
 
     def case_conf(self, flavour, shape, nops, npaths=3, clash=False):
         """CONF: both sides create/write/delete the *same* small set of paths (no renames).  A 'clash' path is a file
